@@ -17,7 +17,17 @@ from concurrent.futures import ThreadPoolExecutor
 ROOT = os.path.dirname(os.path.dirname(os.path.abspath(__file__)))
 REPO = os.environ.get('VERIF_REPO', '/repo')
 BUILD = os.path.join(ROOT, 'build')
-COQ = os.path.join(ROOT, 'coq')
+COQ_SRC = os.path.join(ROOT, 'coq')
+if os.path.realpath(REPO) == '/repo':
+    WORK = BUILD
+    COQ = COQ_SRC
+else:
+    # a scratch tree gets its own copy of the Coq development (its generated constants differ)
+    WORK = os.path.join(BUILD, 'alt', hashlib.sha1(os.path.realpath(REPO).encode()).hexdigest()[:10])
+    COQ = os.path.join(WORK, 'coq')
+CONSTS_JSON = os.path.join(WORK, 'consts.json')
+os.environ['VERIF_CONSTS_JSON'] = CONSTS_JSON
+COQ_WARN = ['-w', '-notation-overridden,-deprecated-hint-without-locality,-deprecated-instance-without-locality']
 GUARD = 'POTASSCO_LIBPOTASSCO_VERIF'
 sys.path.insert(0, ROOT)
 sys.path.insert(0, os.path.join(ROOT, 'tools'))
@@ -176,7 +186,10 @@ def coq_prepare():
 
 
 def _coq_prepare():
-    problems = gen_consts.generate(REPO, os.path.join(COQ, 'Gen', 'Consts.v'), os.path.join(BUILD, 'consts.json'))
+    if COQ != COQ_SRC:
+        os.makedirs(COQ, exist_ok=True)
+        sh(['rsync', '-a', '--delete', '--exclude', 'Gen/', '--exclude', '.*.aux', '--exclude', '*.glob', COQ_SRC + '/', COQ + '/'])
+    problems = gen_consts.generate(REPO, os.path.join(COQ, 'Gen', 'Consts.v'), CONSTS_JSON)
     vs = sorted(os.path.relpath(p, COQ) for p in glob.glob(os.path.join(COQ, '**', '*.v'), recursive=True))
     proj = '-Q . V\n-arg -w -arg -notation-overridden,-deprecated-hint-without-locality,-deprecated-instance-without-locality\n' + '\n'.join(vs) + '\n'
     pp = os.path.join(COQ, '_CoqProject')
@@ -205,26 +218,86 @@ def strip_comments(s):
     return ''.join(out)
 
 
+class FileLock:
+    def __init__(self, path):
+        self.path = path + '.lock'
+
+    def __enter__(self):
+        self.f = open(self.path, 'w')
+        fcntl.flock(self.f, fcntl.LOCK_EX)
+
+    def __exit__(self, *a):
+        fcntl.flock(self.f, fcntl.LOCK_UN)
+        self.f.close()
+
+
+def coq_imports(f):
+    """Direct imports (our own files) of coq/<f>."""
+    txt = strip_comments(open(os.path.join(COQ, f)).read())
+    deps = []
+    for m in re.finditer(r'(?:From\s+(\S+)\s+)?Require\s+(?:Import\s+|Export\s+)?(.*?)\.(?=\s|$)', txt, re.S):
+        frm = m.group(1)
+        for name in m.group(2).split():
+            cand = None
+            if name.startswith('V.'):
+                cand = name[2:].replace('.', '/') + '.v'
+            elif frm == 'V' or (frm or '').startswith('V.'):
+                pref = frm[2:].replace('.', '/') + '/' if frm.startswith('V.') else ''
+                cand = pref + name.replace('.', '/') + '.v'
+            if cand and os.path.exists(os.path.join(COQ, cand)) and cand not in deps:
+                deps.append(cand)
+    return deps
+
+
 def coq_closure(target_v):
-    """Transitive closure (our own files only) of the imports of coq/<target_v>."""
-    seen, todo = [], [target_v]
-    while todo:
-        f = todo.pop()
-        if f in seen or not os.path.exists(os.path.join(COQ, f)):
+    """Transitive import closure (our own files only) of coq/<target_v>, dependencies first."""
+    order, state = [], {}
+
+    def visit(f):
+        if state.get(f) == 2 or not os.path.exists(os.path.join(COQ, f)):
+            return
+        if state.get(f) == 1:
+            return  # cycle: coqc will complain
+        state[f] = 1
+        for d in coq_imports(f):
+            visit(d)
+        state[f] = 2
+        order.append(f)
+    visit(target_v)
+    return order
+
+
+def coq_build(target_v, force=(), per_file_timeout=1200):
+    """Compile the closure of target_v with coqc, one file at a time, each under its own lock and timeout
+    (full .vo builds; never -vos).  Returns {file: (ok, stdout, stderr)}."""
+    res = {}
+    for f in coq_closure(target_v):
+        deps = coq_imports(f)
+        if any(not res.get(d, (True,))[0] for d in deps):
+            res[f] = (False, '', 'dependency failed')
             continue
-        seen.append(f)
-        txt = strip_comments(open(os.path.join(COQ, f)).read())
-        for m in re.finditer(r'(?:From\s+V(?:\.([A-Za-z0-9_.]+))?\s+)?Require\s+(?:Import\s+|Export\s+)?([^.]*(?:\.[A-Za-z][^.\s]*)*)\.', txt):
-            pref = m.group(1)
-            for name in m.group(2).split():
-                cand = None
-                if name.startswith('V.'):
-                    cand = name[2:].replace('.', '/') + '.v'
-                elif m.group(0).startswith('From') and 'From V' in m.group(0):
-                    cand = ((pref.replace('.', '/') + '/') if pref else '') + name.replace('.', '/') + '.v'
-                if cand:
-                    todo.append(cand)
-    return seen
+        v = os.path.join(COQ, f)
+        vo = v[:-2] + '.vo'
+        with FileLock(os.path.join(COQ, '.' + f.replace('/', '_'))):
+            def mt(p):
+                return os.path.getmtime(p) if os.path.exists(p) else -1
+            need = f in force or mt(vo) < mt(v) or any(mt(os.path.join(COQ, d[:-2] + '.vo')) > mt(vo) for d in deps)
+            if not need:
+                res[f] = (True, '', '')
+                continue
+            if os.path.exists(vo):
+                os.remove(vo)
+            try:
+                rc, out, err = sh(['timeout', str(per_file_timeout), 'coqc', '-q'] + COQ_WARN + ['-Q', '.', 'V', f], cwd=COQ, timeout=per_file_timeout + 30)
+            except subprocess.TimeoutExpired:
+                rc, out, err = 124, '', 'coqc timed out'
+            if rc == 124:
+                err = 'coqc timed out after %ds: %s' % (per_file_timeout, f)
+            if rc != 0 and os.path.exists(vo):
+                os.remove(vo)
+            res[f] = (rc == 0, out, err)
+    return res
+
 
 
 def prove(pid, allowed_axioms=()):
@@ -239,31 +312,21 @@ def prove(pid, allowed_axioms=()):
             res['errors'].append('forbidden construct %r in %s' % (m.group(0), f))
         thms[f] = [m.group(2) for m in THM.finditer(txt)]
     res['obligations'] = sum(len(v) for v in thms.values())
-    cmd = ['make', '-k', '-j16', target + '.vo']
-    res['cmd'] = 'cd coq && coq_makefile -f _CoqProject -o Makefile && ' + ' '.join(cmd)
-    with Lock('coq'):
-        for ext in ('.vo', '.glob', '.vok', '.vos'):
-            p = os.path.join(COQ, target + ext)
-            if os.path.exists(p):
-                os.remove(p)
-        try:
-            rc, out, err = sh(['timeout', '1500'] + cmd, cwd=COQ, timeout=1600)
-        except subprocess.TimeoutExpired:
-            rc, out, err = 124, '', 'make timed out'
+    res['cmd'] = ('cd coq && for f in <import closure of %s.v, dependencies first>; do timeout 1200 coqc -q -Q . V $f; done   '
+                  '(tools/check.py coq_build; equivalent: coq_makefile -f _CoqProject -o Makefile && make %s.vo)' % (target, target))
+    br = coq_build(target + '.v', force=(target + '.v',))
+    out = br.get(target + '.v', (False, '', ''))[1]
     built = 0
+    rc = 0
     for f in files:
-        vo = os.path.join(COQ, f[:-2] + '.vo')
-        if os.path.exists(vo) and os.path.getmtime(vo) >= os.path.getmtime(os.path.join(COQ, f)):
+        ok, o, e = br.get(f, (False, '', 'not built'))
+        if ok:
             built += len(thms[f])
         else:
-            res['errors'].append('not compiled: %s (obligations: %s)' % (f, ', '.join(thms[f][:12])))
+            rc = 1
+            msg = ' '.join(e.split())[-500:]
+            res['errors'].append('not compiled: %s (obligations: %s): %s' % (f, ', '.join(thms[f][:12]), msg))
     res['discharged'] = built
-    if rc != 0:
-        m = re.findall(r'File "([^"]+)", line (\d+)[^\n]*\n((?:.*\n){0,12}?)(?=File|make|$)', err)
-        for (f, ln, msg) in m[:5]:
-            res['errors'].append('coqc error %s:%s: %s' % (f, ln, ' '.join(msg.split())[:400]))
-        if not m:
-            res['errors'].append('make failed: ' + err[-800:])
     # Print Assumptions output
     cur = None
     for line in out.splitlines():
@@ -288,16 +351,19 @@ def prove(pid, allowed_axioms=()):
 
 
 def extract(pid):
-    d = os.path.join(BUILD, 'ocaml', pid)
+    d = os.path.join(WORK, 'ocaml', pid)
     os.makedirs(d, exist_ok=True)
     src = os.path.join(COQ, 'Extract_%s.v' % pid)
     exe = os.path.join(d, 'model_driver')
-    with Lock('coq'):
-        # model files must be compiled (proof files may be broken; extraction only needs the model)
-        deps = [f for f in coq_closure('Extract_%s.v' % pid) if not f.startswith('Extract_')]
-        rc, out, err = sh(['timeout', '900', 'make', '-k', '-j16'] + [f[:-2] + '.vo' for f in deps], cwd=COQ, timeout=1000)
-        if rc != 0:
-            return None, 'model does not compile: ' + err[-1500:]
+    # model files must be compiled (proof files may be broken; extraction only needs the model)
+    deps = [f for f in coq_closure('Extract_%s.v' % pid) if not f.startswith('Extract_')]
+    br = {}
+    for f in coq_imports('Extract_%s.v' % pid):
+        br.update(coq_build(f))
+    bad = [f for f, r in br.items() if not r[0]]
+    if bad:
+        return None, 'model does not compile: %s: %s' % (bad[0], br[bad[0]][2][-1500:])
+    with Lock('ocaml-' + pid):
         stamp = file_hash(src, os.path.join(ROOT, 'ocaml', 'driver.ml'), *[os.path.join(COQ, f) for f in deps])
         sp = os.path.join(d, 'stamp')
         if os.path.exists(exe) and os.path.exists(sp) and open(sp).read() == stamp:
@@ -346,13 +412,13 @@ def parse_coq_lists(out):
 
 
 def coq_eval(pid, module, fn, cases):
-    d = os.path.join(BUILD, 'xcheck', pid)
+    d = os.path.join(WORK, 'xcheck', pid)
     os.makedirs(d, exist_ok=True)
     body = ';\n '.join('[' + '; '.join(('(%d)' % x) for x in c) + ']' for c in cases)
     v = ('Require Import ZArith List. Import ListNotations. Require Import %s.\nLocal Open Scope Z_scope.\n'
          'Definition cases : list (list Z) := [\n %s].\nEval vm_compute in (map %s cases).\n' % (module, body, fn))
     open(os.path.join(d, 'cases.v'), 'w').write(v)
-    with Lock('coq'):
+    with Lock('xcheck-' + pid):
         rc, out, err = sh(['timeout', '600', 'coqc', '-Q', COQ, 'V', 'cases.v'], cwd=d, timeout=700)
     if rc != 0:
         return None, err[-800:]
@@ -723,18 +789,25 @@ COMMON_TB = [
 
 
 def all_pids():
-    return sorted(f[:-3] for f in os.listdir(os.path.join(ROOT, 'props')) if re.match(r'C\d+\.py$', f))
+    ps = sorted(f[:-3] for f in os.listdir(os.path.join(ROOT, 'props')) if re.match(r'C\d+\.py$', f))
+    return [p for p in ps if getattr(importlib.import_module('props.' + p), 'READY', False)]
 
 
 def setup():
     probs = coq_prepare()
     if probs:
         log('translator problems:', probs)
-    rc, out, err = sh(['timeout', '3000', 'make', '-k', '-j16'], cwd=COQ, timeout=3100)
-    log('coq make rc=%d' % rc)
-    if rc != 0:
-        print(err[-3000:], file=sys.stderr)
-    ok = rc == 0
+    ok = True
+    targets = sorted(os.path.basename(p) for p in glob.glob(os.path.join(COQ, 'Properties_*.v')))
+
+    def bt(t):
+        return t, coq_build(t)
+    with ThreadPoolExecutor(8) as ex:
+        for t, br in ex.map(bt, targets):
+            bad = [f for f, r in br.items() if not r[0]]
+            log('coq build %s: %s' % (t, 'ok' if not bad else 'FAILED ' + ', '.join(bad)))
+            if bad and re.match(r'Properties_(C\d+)\.v', t).group(1) in all_pids():
+                ok = False
     for pid in all_pids():
         exe, e = extract(pid)
         if exe is None:
